@@ -204,7 +204,7 @@ def case_term(c, out):
 # ------------------------------------------------------------------ generator
 def gen_case(r, tier, classes_allowed=True):
     side = "Wr" if r.random() < 0.65 else "Rd"
-    ldl = r.choice(LDLS)
+    ldl = r.choice([S, S, 2 * S, -1] if side == "Wr" else [-1, S, 2 * S, 2 * S])
     crash = [r.choice([1, 2])] if r.random() < 0.5 else []   # at most one participant with a short lease
     n = r.randint(5, 14 if tier == "quick" else 30)
     ev = []
@@ -268,7 +268,7 @@ def gen_case(r, tier, classes_allowed=True):
 
 
 def gen(r, tier):
-    n = {"quick": 80, "search": 400, "thorough": 2500}[tier]
+    n = {"quick": 60, "search": 400, "thorough": 1000}[tier]
     cases = []
     for i in range(n):
         cases.append(gen_case(r, tier, classes_allowed=(i % 3 != 0)))
